@@ -1076,6 +1076,8 @@ def alloc_check(pid, tier, seed):
     rnd = random.Random(seed * 1000003 + (7 if pid == 'C07' else 8))
     st = Stats()
     envs = envs_for(rnd, tier, 10, 40, oneof_defaults=True)
+    # always one schema whose first message has more than 128 fields (heap-allocated required-fields bitmap) ...
+    envs.append(casegen.gen_env(rnd, nmsgs=2, big=True, wide=True))
     per_env = 14 if tier == 'quick' else 24
     tally = {'traces': 0, 'accepted_by_monitor': 0, 'events': 0, 'refusal_points': 0}
     for env in envs:
@@ -1138,6 +1140,13 @@ def alloc_check(pid, tier, seed):
                      % (first_diff(o, h), sizes, env.text(), l, o[:4000], h[:4000]))
         for i, (l, o) in enumerate(zip(lines, c_out)):
             tally['traces'] += 1; tally['events'] += len(o.split()) - 1
+            toks = o.split()
+            if any(t.endswith(':1024') or t.endswith(':2048') or t.endswith(':4096') for t in toks if t[0] in 'ar'):
+                tally['traces_with_heap_slabs'] = tally.get('traces_with_heap_slabs', 0) + 1
+            if len(env.msgs[int(l.split()[1])].fields) > 128:
+                tally['traces_with_heap_bitmap'] = tally.get('traces_with_heap_bitmap', 0) + 1
+            if ' U0' in o:
+                tally['rejected'] = tally.get('rejected', 0) + 1
             v = l_out[i] if i < len(l_out) else '?'
             if v == 'L 1':
                 tally['accepted_by_monitor'] += 1
